@@ -94,7 +94,7 @@ def fail_bound(n, excluded, pool=24):
 
 def _flatten_add(node, out):
     from mathy_core import expressions as E
-    if isinstance(node, E.AddExpression):
+    if isinstance(node, (E.AddExpression, E.SubtractExpression)):
         _flatten_add(node.left, out)
         _flatten_add(node.right, out)
     else:
@@ -133,7 +133,7 @@ _TERM = re.compile(r"^\s*-?[\d.]*([a-zA-Z])(?:\^(-?[\d.]+))?\s*$")
 
 
 def like_pair_text(text):
-    parts = text.replace("(", " ").replace(")", " ").split(" + ")
+    parts = re.split(r" [+-] ", text.replace("(", " ").replace(")", " "))
     seen = set()
     for p in parts:
         m = _TERM.match(p)
@@ -486,7 +486,7 @@ class ProblemsSim:
             if r < 0.2:
                 kw["common_variables"] = True
                 kw["num_vars"] = rng.randint(0, 3)
-                kw["exclude_vars"] = rng.sample(list("xyz"), rng.randint(0, 2))
+                kw["exclude_vars"] = sorted(rng.sample(list("xyz") + LETTERS, rng.randint(0, 2)))
                 return kw
             ex = rng.sample(LETTERS, rng.choice([0, 0, 1, 2, 4, 8, 12]))
             # direct calls stay where a fair rejection sampler practically always succeeds
